@@ -5,7 +5,7 @@
    the harness computed by calling goutil.AESEncrypt/AESDecrypt, md5 and codec.Marshal directly.
    case inputs  = (sKIND (xVERC xVERS) mSECURE mACCEPT mHANDLER (sHANDLER-KIND sHANDLER-RETURN) xARG xRES xZERO-ARG xZERO-RES
                    ((sWHO xPLAIN xCIPHER) ...) ((sWHO xCIPHER optPLAIN) ...) ((xVER xCIPHER xWIRE) ...))
-   observations = call: (mREQ-SECURE optREQ-BODY nHANDLER optHANDLER-ARG mREP-SECURE optREP-BODY sSTATUS optRESULT)
+   observations = call: (mREQ-SECURE optREQ-BODY nHANDLER optHANDLER-ARG mREP-SECURE optREP-BODY sSTATUS optRESULT optCMD-REPLY)
                   push: (mREQ-SECURE optREQ-BODY nHANDLER optHANDLER-ARG sSTATUS)                       *)
 From Coq Require Import Strings.String Strings.Byte.
 From Coq Require Import List Arith NArith ZArith Bool Lia.
@@ -154,7 +154,10 @@ Definition run_one (inp : val) : option val :=
                       VN (match c_handler_arg _ o with Some _ => 1 | None => 0 end);
                       vopt (c_handler_arg _ o);
                       vmarker (c_rep_secure _ o); vopt (c_rep_wire _ o);
-                      status_sym (c_status _ o); vopt (c_result _ o)])
+                      status_sym (c_status _ o); vopt (c_result _ o);
+                      (* CallCmd.Reply(): the result is recorded when the call completes, after the
+                         post-read hooks, so it is the same value *)
+                      vopt (c_result _ o)])
           else
             let o := push_flow bool bytes za (fun v => Some v) (fun b => Some b)
                                (enc_of etab) (dec_of dtab) keyver (wrap_of wtab) (unwrap_of wtab)
@@ -168,7 +171,7 @@ Definition run_one (inp : val) : option val :=
   | _ => None
   end.
 
-(* a session: (sseq MESSAGE-CASE ...) -> (OBSERVATION ...).  Every message is run on its own: the
+(* a session: (sseq (xAPP-SWAP-KEY ...) MESSAGE-CASE ...) -> (OBSERVATION ...).  Every message is run on its own: the
    model serves each message from a copy of the (empty) session swap (C17_message_flags_do_not_leak),
    so a session is the list of its messages' single results - which is what the implementation must
    show, message after message, on ONE session (and on a session re-established by a redial). *)
@@ -180,7 +183,10 @@ Fixpoint run_all (l : list val) : option (list val) :=
 
 Definition run (inp : val) : option val :=
   match inp with
-  | VL (t :: ms) => if sym_eqb t "seq" then option_map VL (run_all ms) else run_one inp
+  | VL (t :: VL _app_swap_keys :: ms) =>
+      (* the application's swap keys are not looked at: C17_app_swap_data_invisible *)
+      if sym_eqb t "seq" then option_map VL (run_all ms) else run_one inp
+  | VL _ => run_one inp
   | _ => None
   end.
 
